@@ -635,13 +635,17 @@ func RunCheck(o Options) int {
 	if v, ok := obs["exhaustive_spaces"]; ok && v > 0 {
 		cov["exhaustive_subspaces"] = v
 	}
+	assumptions := chk.Assumptions
+	if assumptions == nil {
+		assumptions = []string{}
+	}
 	ev := map[string]any{
 		"property_id": o.ID,
 		"tier":        o.Tier,
 		"seed":        o.Seed,
 		"level":       chk.Level,
 		"coverage":    cov,
-		"assumptions": chk.Assumptions,
+		"assumptions": assumptions,
 		"wall_s":      time.Since(t0).Seconds(),
 		"violations":  violations,
 	}
